@@ -13,7 +13,7 @@ namespace LW.Driver.IsoOps
 open LW LW.Canon
 
 def isIsoOp (op : String) : Bool :=
-  ["cflistdec", "cmddec", "rawcrypt", "rawja", "jsonpl", "subdec", "alias_dec", "alias_prop", "alias_data", "alias_app", "alias_enc",
+  ["cflistdec", "cmddec", "rawcrypt", "rawja", "jsonpl", "subdec", "alias_dec", "alias_prop", "alias_data", "alias_app", "alias_enc", "alias_crypt",
    "guardfrm", "guardfopts", "inspect", "reuse_phy", "reuse_macpl", "reuse_ja", "reuse_cfl", "reuse_app", "reuse_apppl", "bandiso"].contains op
 
 def run {α} (args : List String) (p : P α) (k : α → String) : String :=
@@ -63,7 +63,7 @@ def isoQuery (E : BlockCipher) (reg : Registry) (op : String) (args : List Strin
   | "alias_prop" | "alias_data" => "ok same"
   | "alias_app" => run args (do let p ← AppOps.pkg; let u ← boolean; let b ← hex; pure (p, u, b)) fun (p, u, b) =>
       match App.cmdsDec p u b with | .ok _ => "ok same" | .err => "ERR" | .panic => "PANIC"
-  | "alias_enc" | "inspect" => "ok same"
+  | "alias_enc" | "inspect" | "alias_crypt" => "ok same"
   | "guardfrm" => run args (do let k ← hex; let u ← boolean; let a ← nat; let c ← nat; let d ← hex; pure (k, u, a, c, d))
       fun (k, u, a, c, d) =>
         -- the slice sits in a buffer with 16 canary bytes of spare capacity behind it (harness guardedBuf)
